@@ -8,6 +8,9 @@
 (*   [gl, gc : generated line / column,  mapped : BOOLEAN,                 *)
 (*    src : source name, sl, sc : original line / column, name : STRING]   *)
 (* (mapped = FALSE is a 1-field segment: "this position maps to nothing"). *)
+(* A token may carry rng = TRUE (the map's "rangeMappings" field): it maps *)
+(* the whole run of columns up to the next token, column by column -- a    *)
+(* lookup at column c on the token's line yields sc + (c - gc).            *)
 (* Lookup(M, l, c) = the token with the greatest generated position        *)
 (* <= (l, c) -- the semantics of sourcemap::SourceMap::lookup_token and of *)
 (* the package's node_source_map findEntry (global, not per line).         *)
@@ -29,11 +32,15 @@ Lookup(M, l, c) ==
   LET i == GlbIndex(M, l, c, 1, Len(M)) IN
   IF i = 0 THEN NoToken ELSE [found |-> TRUE, tok |-> M[i]]
 
+IsRange(t) == "rng" \in DOMAIN t /\ t.rng
+(* original column a lookup at (l, c) that found token t reports *)
+ColAt(t, l, c) == IF IsRange(t) /\ t.gl = l THEN t.sc + (c - t.gc) ELSE t.sc
+
 (* what a consumer sees at a generated position: nothing, or (src, line, col, name) *)
 Resolve(M, l, c) ==
   LET r == Lookup(M, l, c) IN
   IF ~r.found \/ ~r.tok.mapped THEN <<"unmapped">>
-  ELSE <<r.tok.src, r.tok.sl, r.tok.sc, r.tok.name>>
+  ELSE <<r.tok.src, r.tok.sl, ColAt(r.tok, l, c), r.tok.name>>
 
 (* the exact composition: look g up in the rewrite map R, then its image in the original map O *)
 Composed(R, O, l, c) ==
@@ -51,7 +58,7 @@ ChainFrom(R, O, i, keepUnmapped) ==
            img == IF t.mapped THEN Lookup(O, t.sl, t.sc) ELSE NoToken
        IN (IF img.found
            THEN << [gl |-> t.gl, gc |-> t.gc, mapped |-> img.tok.mapped, src |-> img.tok.src,
-                    sl |-> img.tok.sl, sc |-> img.tok.sc, name |-> img.tok.name] >>
+                    sl |-> img.tok.sl, sc |-> ColAt(img.tok, t.sl, t.sc), name |-> img.tok.name] >>
            ELSE IF keepUnmapped
            THEN << [gl |-> t.gl, gc |-> t.gc, mapped |-> FALSE, src |-> "", sl |-> 0, sc |-> 0, name |-> ""] >>
            ELSE <<>>)
